@@ -5,7 +5,7 @@ from lib import build, tlc, replay, report
 def run(tier):
     c = report.Check("C11", "model_checking", tier)
     exe = build.build("rel", ("replay",))["replay"]
-    r = tlc.run("Surface.tla", "Surface.cfg", workers=12, timeout=1800, heap="12g")
+    r = tlc.run("Surface.tla", "Surface.cfg" if tier != "thorough" else "Surface_thorough.cfg", workers=12, timeout=1800, heap="12g")
     c.add_tlc(r, "polygon x listed corners x interior points x affine/bumped x entry order; merge mechanism refines the nodal-value specification")
     beh = list(dict.fromkeys(r.behaviours))
     res = replay.replay(exe, beh, shards=16, timeout_s=60)
@@ -14,7 +14,8 @@ def run(tier):
     c.coverage["exhaustive"] = True
     c.coverage["distinct_nontrivial"] = len(beh)
     c.coverage["rule"] = ("3 polygons (two rectangles, one with corners on the axes, and a pentagon) x every subset of listed corners x 0-2 listed "
-                          "interior points x {nodal values on one affine function, values bumped off it} x {corners first, interior points first}; the "
+                          "interior points x {nodal values on one affine function, values bumped off it} x {corners first, interior points first} x a second "
+                          "point-less entry {absent, at the end (quick), also between the groups (thorough)} x area type x {max, min, both}; the "
                           "depth used is observed 1 m above and 1 m below the predicted depth at every nodal point, at every half-lattice point "
                           "inside (affine: the exact affine value; otherwise the min / max nodal bounds). non-trivial: all configurations")
     c.assumptions += ["Cartesian integer-metre coordinates; spherical surfaces are exercised through C08 (longitude shifts) and C13"]
